@@ -53,6 +53,16 @@ M = [
  ("NC_C02_message_and_eps", "C02", "flodym/mfa_system.py", 'message = "Mass balance check failed for the following processes: " + info', 'message = "Unbalanced processes -> " + info', "negative control: other message text"),
  ("NC_C18_processes_loop", "C18", "flodym/processes.py", 'return {name: Process(name=name, id=id) for id, name in enumerate(definitions)}', 'out = {}\n    for name in definitions:\n        out[name] = Process(name=name, id=len(out))\n    return out', "negative control: loop instead of comprehension"),
  ("NC_C19_pickle_with_block", "C19", "flodym/export/data_writer.py", 'pickle.dump(dict_out, open(export_path, "wb"))', 'with open(export_path, "wb") as fh:\n        pickle.dump(dict_out, fh, protocol=pickle.HIGHEST_PROTOCOL)', "negative control: with-block and explicit protocol"),
+ ("NC_C19_retry_write", "C19", "flodym/export/data_writer.py", '        flow.to_df().to_csv(path_out)', '        try:\n            flow.to_df().to_csv(path_out)\n        except OSError:\n            flow.to_df().to_csv(path_out)  # one retry', "negative control: the CSV writer retries a failed write once"),
+ ("NC_C15_copy_deepcopy", "C15", "flodym/flodym_arrays.py", 'return self.model_copy(update={"dims": self.dims.copy(), "values": self.values.copy()})', 'return deepcopy(self)', "negative control: copy() via deepcopy"),
+ ("NC_C14_subset_via_ctor", "C14", "flodym/dimensions.py", '        subset = self.copy()\n        if dims is not None:\n            subset.dim_list = [self._full_mapping[dim_key] for dim_key in dims]\n        return subset', '        if dims is None:\n            return DimensionSet(dim_list=list(self.dim_list))\n        return DimensionSet(dim_list=[self._full_mapping[dim_key] for dim_key in dims])', "negative control: get_subset through the constructor"),
+ ("NC_C12_dup_via_groupby", "C12", "flodym/_df_to_flodym_array.py", 'if indices.duplicated().any():', 'if len(indices) and len(indices.drop_duplicates()) != len(indices):', "negative control: duplicates found via drop_duplicates"),
+ ("NC_C02_loop_sum", "C02", "flodym/mfa_system.py", 'return {p_name: sum(parts) for p_name, parts in contributions.items() if parts}', 'out = {}\n        for p_name, parts in contributions.items():\n            if not parts:\n                continue\n            total = parts[0]\n            for part in parts[1:]:\n                total = total + part\n            out[p_name] = total\n        return out', "negative control: explicit loop instead of sum()"),
+ ("NC_C05_copyto", "C05", "flodym/flodym_arrays.py", '            self.values[slice_obj.ids] = copy(item)', '            self.values[slice_obj.ids] = np.array(item, copy=True)', "negative control: np.array(copy=True) instead of copy()"),
+ ("NC_C11_multiindex_from_arrays", "C11", "flodym/flodym_arrays.py", '            multiindex = pd.MultiIndex.from_product(\n                [d.items for d in self.dims], names=self.dims.names\n            )', '            import itertools as _it\n            _tuples = list(_it.product(*[d.items for d in self.dims]))\n            multiindex = pd.MultiIndex.from_tuples(_tuples, names=self.dims.names)', "negative control: MultiIndex.from_tuples over itertools.product"),
+ ("NC_C18_flows_name_first", "C18", "flodym/flow_helper.py", '        dim_subset = dims.get_subset(flow_definition.dim_letters)\n        flow = Flow(from_process=from_process, to_process=to_process, name=name, dims=dim_subset)', '        flow = Flow(from_process=from_process, to_process=to_process, name=str(name), dims=dims[tuple(flow_definition.dim_letters)] if flow_definition.dim_letters else dims.get_subset(()))', "negative control: subset through [] with a tuple"),
+ ("NC_C17_reset_twice", "C17", "flodym/lifetime_models.py", '    def set_prms(self, mean: FlodymArray):\n        self._reset_tables()\n        self.mean = self.cast_any_to_np_array(mean)', '    def set_prms(self, mean: FlodymArray):\n        self._reset_tables()\n        self.mean = self.cast_any_to_np_array(mean)\n        self._reset_tables()', "negative control: tables reset before and after"),
+ ("NC_C13_asarray_number", "C13", "flodym/flodym_arrays.py", '            values = np.array(values)\n', '            values = np.asarray(values).reshape(())\n', "negative control: asarray + reshape for 0-d numbers"),
  ("NC_C19_makedirs_exist_ok", "C19", "flodym/export/data_writer.py", '    if not os.path.exists(export_directory):\n        os.makedirs(export_directory)\n    for flow_name', '    os.makedirs(export_directory, exist_ok=True)\n    for flow_name', "negative control: makedirs(exist_ok=True)"),
  ("C18_swap_source_target", "C18", "flodym/flow_helper.py", 'flow = Flow(from_process=from_process, to_process=to_process, name=name, dims=dim_subset)', 'flow = Flow(from_process=to_process, to_process=from_process, name=name, dims=dim_subset)', "source and target swapped"),
  ("C18_ids_from_1", "C18", "flodym/processes.py", 'for id, name in enumerate(definitions)', 'for id, name in enumerate(definitions, start=1)', "process ids start at 1"),
